@@ -36,10 +36,13 @@ use crate::core::util::{
 };
 use crate::core::vertex::Vertex;
 use crate::geometry::kernel::{FastKernel, Kernel, RobustKernel};
+use crate::geometry::point::Point;
+use crate::geometry::traits::coordinate::Coordinate;
 use crate::geometry::traits::coordinate::{
     CoordinateConversionError, CoordinateScalar, ScalarAccumulative, ScalarSummable,
 };
 use crate::topology::manifold::validate_ridge_links_for_cells;
+use crate::topology::traits::global_topology_model::GlobalTopologyModel;
 use crate::topology::traits::topological_space::{GlobalTopology, TopologyKind};
 use core::cmp::Ordering;
 use num_traits::{NumCast, ToPrimitive, Zero};
@@ -4710,6 +4713,7 @@ where
     where
         K::Scalar: ScalarSummable,
     {
+        let vertex = self.canonicalize_vertex_for_global_topology(vertex)?;
         self.ensure_spatial_index_seeded();
 
         // Fully delegate to Triangulation layer
@@ -4824,6 +4828,7 @@ where
     where
         K::Scalar: ScalarSummable,
     {
+        let vertex = self.canonicalize_vertex_for_global_topology(vertex)?;
         self.ensure_spatial_index_seeded();
 
         // Transactional guard: post-steps (flip repair and/or global Delaunay checks) can fail.
@@ -4895,6 +4900,37 @@ where
                 Err(err)
             }
         }
+    }
+
+    /// Wraps the coordinates of a vertex into the fundamental domain when the triangulation
+    /// has a toroidal global topology (as the builder does for the construction input), so
+    /// that later insertions are canonicalized the same way. Euclidean triangulations are
+    /// unaffected. UUID and data are preserved.
+    fn canonicalize_vertex_for_global_topology(
+        &self,
+        vertex: Vertex<K::Scalar, U, D>,
+    ) -> Result<Vertex<K::Scalar, U, D>, InsertionError> {
+        let topology = self.tri.global_topology();
+        if !matches!(topology, GlobalTopology::Toroidal { .. }) {
+            return Ok(vertex);
+        }
+        let mut coords = *vertex.point().coords();
+        topology
+            .model()
+            .canonicalize_point_in_place(&mut coords)
+            .map_err(|error| {
+                InsertionError::Construction(TriangulationConstructionError::GeometricDegeneracy {
+                    message: format!(
+                        "Failed to canonicalize vertex {:?} for toroidal insertion: {error}",
+                        vertex.point().coords(),
+                    ),
+                })
+            })?;
+        Ok(Vertex::new_with_uuid(
+            Point::new(coords),
+            vertex.uuid(),
+            vertex.data,
+        ))
     }
 
     #[expect(
